@@ -113,6 +113,44 @@ def r1_indentation_everywhere(ctx):
                       "**get_load_data_modality_kwargs(): curves are not "
                       "loaded as Indentation objects")
     ctx.floor("afmformats loader call sites", n, 3)
+    # an option a loader entry point accepts is handed on to every loader it
+    # calls with a path
+    LOADERS = ("load_data", "afmformats.load_data", "IndentationGroup",
+               "load_group", "QMap", "afmformats.AFMGroup")
+    nfw = 0
+    for m, q, f in ctx.repo.all_funcs():
+        if m.name not in ("read", "group", "qmap"):
+            continue
+        params = {a.arg for a in f.args.args + f.args.kwonlyargs}
+        for opt in ("meta_override", "callback"):
+            if opt not in params:
+                continue
+            for c in calls_in(f):
+                cn = call_name(c) or ""
+                is_super_ = isinstance(c.func, ast.Attribute) and \
+                    c.func.attr == "__init__" and isinstance(
+                        c.func.value, ast.Call) and call_name(
+                        c.func.value) == "super"
+                if not (cn in LOADERS or is_super_):
+                    continue
+                if not c.args and not any(k.arg in ("path", "paths")
+                                          for k in c.keywords):
+                    continue      # an empty group
+                has = any(k.arg == opt for k in c.keywords) or any(
+                    k.arg is None and opt in norm(k.value)
+                    for k in c.keywords)
+                nfw += 1
+                what = ("the metadata override (e.g. a spring constant) is "
+                        "ignored" if opt == "meta_override" else
+                        "progress is not reported")
+                ctx.check(has, c,
+                          f"{m.name}.{q}: {cn or 'super().__init__'} "
+                          f"receives {opt}",
+                          f"{m.name}.{q} accepts `{opt}` but calls "
+                          f"`{norm(c)[:50]}` without it: on that path "
+                          f"{what} - curves are loaded with other metadata "
+                          "than requested or are refused")
+    ctx.floor("option-forwarding loader calls", nfw, 4)
     # load_group goes through += on an IndentationGroup
     lg = ctx.repo.mod("group").func("load_group")
     ctx.analysed(lg)
